@@ -49,14 +49,17 @@ NoRawControl(s) == \A i \in 1..Len(s) : s[i] >= 32 /\ s[i] # 127
 
 \* library ---------------------------------------------------------------------
 LibChecks(v, r, i) ==
-  LET e == Enc(v) IN
+  LET e == Enc(v)
+      tj == ToJSONOf(e)
+      ts == ToStringOf(v, e)
+  IN
   << Check("marshal", i, r.marshal = [t |-> "bytes", b |-> e], e),
-     Check("tojson", i, r.tojson = FuncToJSON(v), e),
-     Check("atjson", i, r.atjson = FuncToJSON(v), e),
-     Check("tostring", i, r.tostring = FuncToString(v), FuncToString(v).b),
-     Check("attext", i, r.attext = FuncToString(v), FuncToString(v).b),
-     Check("ijson", i, r.ijson = Interp(<<60>>, v, <<62>>, TRUE), e),
-     Check("itext", i, r.itext = Interp(<<60>>, v, <<62>>, FALSE), FuncToString(v).b),
+     Check("tojson", i, r.tojson = tj, e),
+     Check("atjson", i, r.atjson = tj, e),
+     Check("tostring", i, r.tostring = ts, ts.b),
+     Check("attext", i, r.attext = ts, ts.b),
+     Check("ijson", i, r.ijson = InterpOf(<<60>>, tj, <<62>>), e),
+     Check("itext", i, r.itext = InterpOf(<<60>>, ts, <<62>>), ts.b),
      Check("roundtrip", i, r.rt = Norm(v), Enc(Norm(v))),                 \* tojson|fromjson
      \* the property stated on the real bytes, with the specification's reader
      Check("marshal.wellformed", i,
